@@ -587,3 +587,173 @@ def algo_program(rng, ncases, lanes=ALL_LANES):
             prog["steps"].append({"op": "remove_hash", "lane": rng.choice(lanes), "sri": [{"a": aa, "d": dd}]})
         observe_all(prog, rng, lanes, keys, sorted(seen), with_list=(rng.random() < 0.3))
     return prog
+
+
+# ---------------------------------------------------------------------------------------
+# link_to (C19)
+# ---------------------------------------------------------------------------------------
+
+LINK_SIZES = [0, 5, 8, 9, 16 * 1024 - 1, 16 * 1024, 16 * 1024 + 1, 40 * 1024]
+
+
+def link_program(rng, ncases, lanes=ALL_LANES):
+    prog = {"keys": {}, "blobs": {}, "steps": []}
+    other = add_blob(prog, b"changed target contents %d" % rng.randrange(10 ** 6))
+    wrong = add_blob(prog, b"declared but wrong %d" % rng.randrange(10 ** 6))
+    xc = 0
+    for c in range(ncases):
+        n = rng.choice(LINK_SIZES)
+        d = _mk_data(prog, rng, n)
+        lane = rng.choice(lanes)
+        t = "t%d" % c
+        prog["steps"].append({"op": "env_ext", "id": t, "blob": d})
+        keyed = rng.random() < 0.75
+        key = add_key(prog, rand_key(rng, c)) if keyed else None
+        rel = rng.random() < 0.35
+        if rel:
+            prog["steps"].append({"op": "chdir", "lane": lane, "to": rng.choice(["ext", "base", "root", "/"])})
+        pre = rng.random() < 0.2
+        if pre:   # the address already exists as regular content
+            prog["steps"].append({"op": "write", "lane": rng.choice(lanes), "data": d, "algo": "sha256"})
+        how = rng.choice(["oneshot", "linker", "linker_opts"])
+        expect_ok = True
+        if how == "oneshot":
+            s = {"op": "link_to", "lane": lane, "target": t, "relative": rel}
+            if key:
+                s["key"] = key
+            prog["steps"].append(s)
+        else:
+            l = "l%d" % c
+            s = {"op": "open_linker", "lane": lane, "target": t, "relative": rel, "as": l}
+            if key:
+                s["key"] = key
+            if how == "linker_opts":
+                o = rand_opts(rng)
+                v = rng.choice(["plain", "size_ok", "size_bad", "sri_ok", "sri_bad"])
+                if v == "size_ok":
+                    o["size"] = n
+                elif v == "size_bad":
+                    o["size"] = n + 1
+                    expect_ok = False
+                elif v == "sri_ok":
+                    o["sri"] = [{"a": "sha256", "d": d}]
+                elif v == "sri_bad":
+                    o["sri"] = [{"a": "sha256", "d": wrong}]
+                    expect_ok = False
+                s["opts"] = o
+            prog["steps"].append(s)
+            for _ in range(rng.randrange(0, 3)):
+                prog["steps"].append({"op": "r_read", "lane": lane, "h": l, "n": rng.choice([1, 8, 9, 100, 70000])})
+            prog["steps"].append({"op": "l_commit", "lane": lane, "h": l})
+        if rel:
+            prog["steps"].append({"op": "chdir", "lane": lane, "to": "/"})
+        # read back through several entry points
+        sri = [{"a": "sha256", "d": d}]
+        for _ in range(2):
+            l2 = rng.choice(lanes)
+            if key:
+                prog["steps"].append({"op": "read", "lane": l2, "key": key})
+                prog["steps"].append({"op": "metadata", "lane": l2, "key": key})
+            prog["steps"].append({"op": "read", "lane": rng.choice(lanes), "sri": sri})
+        prog["steps"].append({"op": "exists", "lane": rng.choice(lanes), "sri": sri})
+        x = "x%d" % xc
+        xc += 1
+        prog["steps"].append({"op": "extract", "lane": rng.choice(lanes), "kind": "copy", "checked": True,
+                              "to": x, "sri": sri})
+        # the target changes / disappears / is replaced after linking
+        after = rng.choice(["keep", "change", "remove", "replace_same"])
+        if after == "change":
+            prog["steps"].append({"op": "env_ext", "id": t, "blob": other})
+        elif after == "remove":
+            prog["steps"].append({"op": "env_ext", "id": t, "blob": None})
+        elif after == "replace_same":
+            prog["steps"].append({"op": "env_ext", "id": t, "blob": None})
+            prog["steps"].append({"op": "env_ext", "id": t, "blob": d})
+        if key:
+            prog["steps"].append({"op": "read", "lane": rng.choice(lanes), "key": key})
+        prog["steps"].append({"op": "read", "lane": rng.choice(lanes), "sri": sri})
+        r = "r%d" % c
+        prog["steps"].append({"op": "open_reader", "lane": lane, "sri": sri, "as": r})
+        prog["steps"].append({"op": "r_read", "lane": lane, "h": r, "n": 4096, "all": True})
+        prog["steps"].append({"op": "r_check", "lane": lane, "h": r})
+        if rng.random() < 0.2:
+            prog["steps"].append({"op": "remove_hash", "lane": rng.choice(lanes), "sri": sri})
+    return prog
+
+
+# ---------------------------------------------------------------------------------------
+# index damage (C06)
+# ---------------------------------------------------------------------------------------
+
+GARBAGE_LINES = [b"", b"garbage", b"\x00\x00\x00", b"\xff\xfe\xfd", b"\xc3\x28", b"a\tb", b"a\tb\tc",
+                 b"deadbeef\t{}", b"\xe2\x82", b"{\"key\":1}", b"\r", b"x\r"]
+
+
+def index_damage_program(rng, lanes=ALL_LANES, nrec=3, flips="sample", cuts="all", multibyte=True):
+    """A small real bucket (<= 3 records of one or two keys); every cut length and (all or a
+    sample of) single-bit flips; inserted garbage / NUL / invalid UTF-8 lines; duplicated and
+    reordered fragments; each followed by lookups through sync and async readers, a listing,
+    and (for a sample) further appends."""
+    prog = {"keys": {}, "blobs": {}, "steps": []}
+    k = add_key(prog, ("ключ-é-%d" % rng.randrange(10 ** 6)) if multibyte else "k%d" % rng.randrange(10 ** 6))
+    datas = [_mk_data(prog, rng, n) for n in (3, 10)]
+    metas = [{"é": "ü", "n": 1}, None, "short"]
+    nbytes = 0
+    for i in range(nrec):
+        o = {"meta": metas[i % 3], "time": str(1000 + i)}
+        how = rng.random()
+        if how < 0.6:
+            o["sri"] = [{"a": "sha256", "d": datas[i % 2]}]
+            o["size"] = rng.randrange(1000)
+            prog["steps"].append({"op": "index_insert", "lane": rng.choice(lanes), "key": k, "opts": o})
+        elif how < 0.8 and i > 0:
+            prog["steps"].append({"op": "remove", "lane": rng.choice(lanes), "key": k})
+        else:
+            prog["steps"].append({"op": "write", "lane": rng.choice(lanes), "key": k, "data": datas[i % 2],
+                                  "algo": "sha256"})
+        nbytes += 260
+    prog["steps"].append({"op": "env_bucket", "key": k, "mode": "save", "slot": "orig"})
+
+    def observe(extra_append=False):
+        ls = list(lanes)
+        rng.shuffle(ls)
+        sync_lane = next((l for l in ls if l.endswith("s") or l == "S"), ls[0])
+        async_lane = next((l for l in ls if l.endswith("a")), ls[0])
+        prog["steps"].append({"op": "metadata", "lane": sync_lane, "key": k})
+        prog["steps"].append({"op": "metadata", "lane": async_lane, "key": k})
+        if rng.random() < 0.3:
+            prog["steps"].append({"op": "list", "lane": sync_lane})
+        if extra_append:
+            prog["steps"].append({"op": "write", "lane": rng.choice(lanes), "key": k, "data": datas[0], "algo": "sha256"})
+            prog["steps"].append({"op": "metadata", "lane": sync_lane, "key": k})
+            prog["steps"].append({"op": "metadata", "lane": async_lane, "key": k})
+            prog["steps"].append({"op": "list", "lane": sync_lane})
+
+    dmgs = []
+    maxlen = nbytes + 200
+    if cuts == "all":
+        dmgs += [{"mode": "cut", "len": n} for n in range(0, maxlen)]
+    else:
+        dmgs += [{"mode": "cut", "len": rng.randrange(maxlen)} for _ in range(cuts)]
+    if flips == "all":
+        dmgs += [{"mode": "flip", "bit": b, "_nowrap": True} for b in range(maxlen * 8)]
+    else:
+        dmgs += [{"mode": "flip", "bit": rng.randrange(maxlen * 8)} for _ in range(int(flips) if flips != "sample" else 150)]
+    for g in GARBAGE_LINES:
+        for idx in range(0, nrec + 2):
+            dmgs.append({"mode": "insert_line", "index": idx, "bytes": g.hex()})
+    for i in range(nrec):
+        dmgs.append({"mode": "dup_line", "index": i})
+        dmgs.append({"mode": "drop_nl", "index": i})
+        dmgs.append({"mode": "swap_lines", "i": i, "j": i + 1})
+    for _ in range(30):
+        dmgs.append({"mode": "overwrite", "off": rng.randrange(maxlen),
+                     "bytes": bytes(rng.choice([0, 9, 10, 13, 0xff, 0xc3, rng.randrange(256)])
+                                    for _ in range(rng.randrange(1, 12))).hex()})
+    for dm in dmgs:
+        st = {"op": "env_bucket", "key": k}
+        st.update(dm)
+        prog["steps"].append(st)
+        observe(extra_append=(rng.random() < 0.08))
+        prog["steps"].append({"op": "env_bucket", "key": k, "mode": "restore", "slot": "orig"})
+    return prog
